@@ -413,6 +413,27 @@ def tree_descs(draw, max_leaves=12, keys=None, kinds=None, max_depth=6, min_leav
     return _node(draw, budget, 0, keys, kinds, max_depth, leaf)
 
 
+@st.composite
+def with_childless_twins(draw, inner):
+    """a container holding `inner` next to two or three *childless* nodes of one kind whose metadata differs (empty
+    deques with different maxlen, empty defaultdicts with different factories, empty custom nodes with different
+    metadata, the field-less namedtuple next to an empty tuple): everything per-node must stay per node"""
+    t = draw(inner)
+    fam = draw(st.sampled_from(['deque', 'dd', 'cg', 'mixed']))
+    if fam == 'deque':
+        twins = [['deque', [], m, []] for m in draw(st.permutations(['none', 'zero', 'len+2']))[:draw(st.integers(2, 3))]]
+    elif fam == 'dd':
+        twins = [['dd', f, [], []] for f in draw(st.permutations(sorted(U.FACTORIES)))[:draw(st.integers(2, 3))]]
+    elif fam == 'cg':
+        twins = [['cg', [], m] for m in draw(st.permutations([None, 'm', 3]))[:2]]
+    else:
+        twins = [['nt', 'NT0', []], ['tuple', []], ['list', []], ['deque', [], 'none', []], ['deque', [], 'zero', []]]
+    kids = draw(st.permutations([t] + twins))
+    if draw(st.booleans()):
+        return ['tuple', list(kids)]
+    return ['dict', [[['s', 'abcdez'[i]], k] for i, k in enumerate(kids)], []]
+
+
 def contains_tag(desc, tags):
     if isinstance(desc, list):
         if desc and isinstance(desc[0], str) and desc[0] in tags:
